@@ -68,7 +68,7 @@ def fresh_with(spec, ov):
     if kind == 'meta':
         a = {**spec[2], 'time': spec[3], **ov}
         a.pop('type', None)
-        return MetaMessage(spec[1], **a)
+        return MetaMessage(spec[1], **a)                  # skip_checks, if given, is a constructor keyword
     a = {'type_byte': spec[1], 'data': spec[2], 'time': spec[3], **ov}
     a.pop('type', None)
     return UnknownMetaMessage(**a)
@@ -141,6 +141,11 @@ def judge_copy(ctx, spec, rng):
     ovs.append({'type': ''.join(list(m.type))})                    # equal, not the same str object
     ovs.append({'type': ''.join(list(m.type)), 'time': 9})
     ovs += [{k: v} for k, v in invalid_values(spec)]
+    if spec[0] in ('meta', 'unk'):
+        # MetaMessage.copy() hands every override to the constructor, skip_checks included
+        ovs += [{'skip_checks': True, 'time': 5}, {'skip_checks': True, 'tmepo': 1}, {'skip_checks': False, 'time': 6}]
+        if spec[0] == 'unk':
+            ovs += [{'skip_checks': True, 'data': [1, 2, 3]}, {'data': [4, 5]}, {'data': b'\x01\x02'}]
     for ov in ovs:
         s = snap(m)
         try:
@@ -266,6 +271,35 @@ def judge_freeze(ctx, spec, rng):
         ok = (twin == f2 and hash(twin) == hash(f2) and {f2: 1}[twin] == 1 and twin in {f2}
               and len({twin, f2}) == 1)
         ctx.check('equal frozen => equal hash and dict key', ok, f'hash:{key}', case, None)
+        # equal messages obtained through other routes (decoded from bytes, parsed from text, from a dict,
+        # copied, thawed and frozen again) are equal and hash equal
+        alts = []
+        base = build(spec)
+        try:
+            if spec[0] == 'msg':
+                alts.append(('from_bytes', Message.from_bytes(base.bytes(), time=base.time)))
+                alts.append(('parse_all', mido.parse_all(base.bytes())[0].copy(time=base.time)))
+                if base.time == base.time and abs(base.time) != float('inf'):
+                    alts.append(('from_str', Message.from_str(str(base))))
+                alts.append(('from_dict', Message.from_dict(base.dict())))
+            elif spec[0] == 'meta' and spec[1] != 'sequencer_specific' and not (
+                    spec[1] == 'smpte_offset' and spec[2].get('hours', 0) > 31):
+                d = MetaMessage.from_bytes(base.bytes())
+                d.time = base.time
+                alts.append(('meta-from_bytes', d))
+            alts.append(('copy', base.copy()))
+            alts.append(('copy-time', base.copy(time=base.time)))
+            alts.append(('thaw-freeze', thaw_message(freeze_message(base))))
+        except Exception as exc:
+            ctx.fail('equal frozen => equal hash and dict key', f'alt-route-raised:{key}', case, repr(exc))
+        for name, alt in alts:
+            fa = freeze_message(alt)
+            if fa == f2:
+                ctx.check('equal frozen => equal hash and dict key', hash(fa) == hash(f2) and {f2: 1}.get(fa) == 1
+                          and fa in {f2}, f'hash-differs-by-route:{name}:{key}', lambda: case(name), None)
+            else:
+                ctx.check('equal frozen => equal hash and dict key', False, f'route-not-equal:{name}:{key}',
+                          lambda: case(name), lambda: repr(alt)[:120])
         # having been hashed changes nothing: still equal to the original and to an unhashed twin,
         # thaws and copies as before
         fresh = freeze_message(build(spec))
